@@ -140,6 +140,20 @@ Roots == (IF origAlive THEN H ELSE {}) \cup kept     \* originals are allocation
 DecTop(v, w) == DecKids(w, [allocs |-> allocs, tab |-> tab, i |-> 1, fail |-> FALSE, pins |-> {}],
                         Roots, Pool[v], <<>>)
 
+(* Representation.  A pool value is an ABSTRACT value; the concrete Rust     *)
+(* value handed to Encode may have been built by any history (a VecDeque    *)
+(* whose ring buffer has wrapped, a hash table filled in another order into *)
+(* a larger allocation, a Vec with spare capacity ...).  The wire and the   *)
+(* decoded value do not depend on it - that is why the model has no such    *)
+(* variable - but the code under test must be exercised with it: the k-th   *)
+(* Encode of a behaviour is told to build its containers with layout        *)
+(* Layout(k) (harness/src/codec.rs "Layouts": 0 = collected in order,       *)
+(* 1 = grown from both ends / reverse insertion, 2 = head moved by queue    *)
+(* traffic / shrunk table; the harness adds the seed).  FIFO then demands   *)
+(* the same decoded value for every layout.                                 *)
+NLayouts == 3
+Layout(k) == (k - 1) % NLayouts
+
 (* ------------------------------ actions --------------------------------- *)
 Init ==
     /\ stream = <<>> /\ pos = 0 /\ out = <<>>
@@ -153,7 +167,7 @@ Encode(v) ==
     /\ ~failed /\ ~done /\ Len(stream) < MaxEnc /\ origAlive
     /\ LET w == Wire(v) IN
        /\ stream' = Append(stream, [v |-> v, wire |-> w])
-       /\ hist' = Append(hist, [op |-> "enc", v |-> v,
+       /\ hist' = Append(hist, [op |-> "enc", v |-> v, lay |-> Layout(Len(stream) + 1),
                                 x |-> [len |-> Len(stream) + 1, sr |-> Pattern(w)]])
     /\ UNCHANGED <<pos, out, allocs, tab, reg, origAlive, kept, auxUsed, failed, done>>
 
